@@ -13,7 +13,7 @@ Inductive ikind :=
 Record invocation := mk_inv {
   i_kind : ikind;
   i_argv : list bytes;            (* arguments after the global options *)
-  i_noreplace : bool;             (* --no-replace-objects -c advice.graftFileDeprecated=false *)
+  i_noreplace : bool;             (* --no-replace-objects -c core.useReplaceRefs=false -c advice.graftFileDeprecated=false *)
   i_env : bool                    (* GIT_DIR=<resolved> and GIT_GRAFT_FILE=/dev/null in the environment *)
 }.
 
